@@ -160,6 +160,9 @@ func propC26(c *Check) {
 			}
 		}
 		c.Require(pan, "shape", clo+"|shrinking resubmission panics", "a resubmission that omits an already-recorded snapshot panics", "assertion missing")
+		// per iteration: an already-recorded hash that the resubmission does not list cannot be skipped
+		filt := func(v ssa.Value) bool { m, ok := v.(*ssa.MakeMap); return ok && typeShort(m.Type()) == "map[crypto.Hash]bool" }
+		c.LoopGate(f, miss, Gate{Name: "!filter[id] => panic", RejectOnTrue: false, Cond: lookupOf(filt)}, "every recorded snapshot of the round is present in the resubmission")
 	}
 	_ = w
 }
